@@ -186,7 +186,7 @@ mod verif_conv {
                 let r = <Vec<Duration> as $tr>::try_to_value(v);
                 match r {
                     Ok(MetricValue::PackedUnsigned(ref out)) => {
-                        assert!(!overflow, "[C02] a Duration that does not fit in 64 bits at ANY position of a packed list rejects the whole list");
+                        assert!(!overflow, "[C02,C03] a Duration that does not fit in 64 bits at ANY position of a packed list rejects the whole list (an invalid value is never handed to the sink)");
                         assert!(out.len() == $n, "[C02] packed Duration list keeps its length");
                         let mut k = 0;
                         while k < $n { assert!(out[k] as u128 == ex[k], "[C02] packed Durations are converted element-wise, in order, rounded down"); k += 1; }
@@ -203,13 +203,13 @@ mod verif_conv {
             }
         };
     }
-    //@H name=c02_timer_vec_duration_1 props=C01,C02,C20 bound="list length 1 (unwind 6)" fn=ToTimerValue<Vec<Duration>> :: packed Durations -> ms element-wise; overflow at any index rejects the list
+    //@H name=c02_timer_vec_duration_1 props=C01,C02,C03,C20 bound="list length 1 (unwind 6)" fn=ToTimerValue<Vec<Duration>> :: packed Durations -> ms element-wise; overflow at any index rejects the list
     vec_duration!(c02_timer_vec_duration_1, ToTimerValue, exact_ms, 1);
     //@H name=c02_timer_vec_duration_2 props=C01,C02,C20 bound="list length 2 (unwind 6)" fn=ToTimerValue<Vec<Duration>> :: packed Durations -> ms element-wise; overflow at any index rejects the list
     vec_duration!(c02_timer_vec_duration_2, ToTimerValue, exact_ms, 2);
     //@H name=c02_timer_vec_duration_3 props=C01,C02,C20 tier=thorough bound="list length 3 (unwind 6)" fn=ToTimerValue<Vec<Duration>> :: packed Durations -> ms element-wise; overflow at any index rejects the list
     vec_duration!(c02_timer_vec_duration_3, ToTimerValue, exact_ms, 3);
-    //@H name=c02_hist_vec_duration_1 props=C01,C02,C20 bound="list length 1 (unwind 6)" fn=ToHistogramValue<Vec<Duration>> :: packed Durations -> ns element-wise; overflow at any index rejects the list
+    //@H name=c02_hist_vec_duration_1 props=C01,C02,C03,C20 bound="list length 1 (unwind 6)" fn=ToHistogramValue<Vec<Duration>> :: packed Durations -> ns element-wise; overflow at any index rejects the list
     vec_duration!(c02_hist_vec_duration_1, ToHistogramValue, exact_ns, 1);
     //@H name=c02_hist_vec_duration_2 props=C01,C02,C20 tier=thorough bound="list length 2 (unwind 6)" fn=ToHistogramValue<Vec<Duration>> :: packed Durations -> ns element-wise; overflow at any index rejects the list
     vec_duration!(c02_hist_vec_duration_2, ToHistogramValue, exact_ns, 2);
